@@ -53,6 +53,10 @@ enum Mutation {
     LongLine(u16, u16),
     DeleteSlice(u16, u16),
     FlipByte(u16, u8),
+    /// a short token repeated a chosen number of times (many fields, many groups, many items)
+    Repeat(u16, Vec<u8>, u16),
+    /// a token of the library's own source
+    DictToken(u16, Vec<u8>),
 }
 
 fn mutation() -> BoxedStrategy<Mutation> {
@@ -65,6 +69,9 @@ fn mutation() -> BoxedStrategy<Mutation> {
         1 => (any::<u16>(), 500u16..3500).prop_map(|(a, b)| Mutation::LongLine(a, b)),
         2 => (any::<u16>(), any::<u16>()).prop_map(|(a, b)| Mutation::DeleteSlice(a, b)),
         2 => (any::<u16>(), any::<u8>()).prop_map(|(a, b)| Mutation::FlipByte(a, b)),
+        2 => (any::<u16>(), prop::sample::select(vec![&b" t"[..], b" ", b"\t", b"x ", b",", b".1", b"nb1", b"a-", b"/", b"../", b"\n", b"=", b"{a}", b"[", b"*", b"?", b":", b" a=b", b"\xc3\xa9"]), crate::engine::gen::interesting_len(700))
+            .prop_map(|(a, t, n)| Mutation::Repeat(a, t.to_vec(), n as u16)),
+        2 => (any::<u16>(), crate::engine::dict::byte_token(|_| true, b"a")).prop_map(|(a, t)| Mutation::DictToken(a, t)),
     ]
     .boxed()
 }
@@ -112,6 +119,17 @@ fn apply_mutation(doc: &mut Vec<u8>, other: &[u8], m: &Mutation) {
             if len > 0 {
                 doc[idx(*p, len)] ^= *v | 1;
             }
+        }
+        Mutation::Repeat(p, t, n) => {
+            // at a line end if there is one at / after p, otherwise at p
+            let from = idx(*p, len + 1);
+            let at = (from..len).find(|i| doc[*i] == b'\n').unwrap_or(from);
+            let rep: Vec<u8> = t.iter().copied().cycle().take(t.len() * *n as usize).collect();
+            doc.splice(at..at, rep);
+        }
+        Mutation::DictToken(p, t) => {
+            let at = idx(*p, len + 1);
+            doc.splice(at..at, t.iter().copied());
         }
     }
 }
@@ -243,7 +261,7 @@ pub fn check(c: &Case, obs: &mut Obs) -> Result<(), String> {
         "mutated" => obs.class("source=mutated-valid-document"),
         _ => obs.class("source=seed-prefix"),
     }
-    if crate::models::dewey::longest_digit_run(&String::from_utf8_lossy(&c.data.0)) > 18 {
+    if !crate::models::dewey::numbers_in_domain(&String::from_utf8_lossy(&c.data.0)) {
         obs.class("digit-run-over-18");
     }
     if std::str::from_utf8(&c.data.0).is_err() {
